@@ -10,7 +10,11 @@ static Str norm_path(const ref::RUri &u) {
     if (u.has_authority) { Str p = ref::remove_dot_segments(u.path); return p.empty() ? Str("/") : p; }
     if (!u.path.empty() && u.path[0] == '/') return ref::remove_dot_segments(u.path);
     if (u.path.empty()) return u.path;
-    return ref::join_path(ref::remove_dots_list(ref::split_path(u.path), false));
+    // rootless: dot segments are removed without making the path absolute (C06, C09); a list left with an empty first segment keeps a
+    // leading "." so that its text cannot be mistaken for an absolute path ('.//a' is not '/a')
+    std::vector<Str> L = ref::remove_dots_list(ref::split_path(u.path), false);
+    Str t = ref::join_path(L);
+    return (L.size() > 1 && L[0].empty()) ? "./" + t : t;
 }
 static bool same_authority(const ref::RUri &a, const ref::RUri &b) {
     if (a.has_authority != b.has_authority) return false;
@@ -134,6 +138,11 @@ static void sets(int n, std::vector<Str> &srcs, std::vector<Str> &bases) {
             }
         }
     }
+    // authorities that differ from the ones above only in the last address byte / in the low half of an IPv6 address (shorter paths)
+    { std::vector<Str> p2 = path_token_paths(tokens, n < 2 ? n : 2, 1); p2.push_back("");
+      for (auto a : { "//1.2.3.5", "//[::2]", "//[1::1]", "//[v1.b]", "//H" }) for (auto &p : p2) for (auto q : { "", "?q" }) {
+          Str body = Str(a) + p + q; if (!ref::is_uri_reference("s:" + body)) continue;
+          if (seen_b.insert("s:" + body).second) bases.push_back("s:" + body); if (seen_s.insert("s:" + body).second) srcs.push_back("s:" + body); } }
     for (auto s : { "a", "/a", "//h/a", "" }) { srcs.push_back(s); bases.push_back(s); }
 }
 
